@@ -583,6 +583,13 @@ func calculateHashes(numLeaves uint64, delHashes []Hash, proof Proof) (hashAndPo
 		maxPos, _ := maxPositionAtRow(row, totalRows, numLeaves)
 		for provePos > maxPos {
 			row++
+
+			// The position is greater than every position in the
+			// forest so it can't exist.
+			if row > totalRows {
+				return hashAndPos{}, nil, fmt.Errorf("invalid proof. Position %d "+
+					"doesn't exist in a forest with %d leaves", provePos, numLeaves)
+			}
 			maxPos, _ = maxPositionAtRow(row, totalRows, numLeaves)
 		}
 
